@@ -110,7 +110,14 @@ func rndScalar(r *rand.Rand, k string, zero bool) AV {
 			a = word(uint64(uint32(rnd64(r))))
 		case "int64", "sint64", "uint64":
 			a = word(rnd64(r))
-		case "fixed32", "sfixed32", "float":
+		case "float":
+			// a signalling NaN cannot pass through protoreflect (float32 -> float64 conversion quiets it): keep NaNs quiet
+			u := uint32(rnd64(r))
+			if u&0x7f800000 == 0x7f800000 && u&0x007fffff != 0 {
+				u |= 0x00400000
+			}
+			a = sv(tr.LE32(u))
+		case "fixed32", "sfixed32":
 			a = sv(tr.LE32(uint32(rnd64(r))))
 		case "fixed64", "sfixed64", "double":
 			a = sv(tr.LE64(rnd64(r)))
